@@ -47,13 +47,15 @@ def extra(ctx):
                 "Definition OM := Eval vm_compute in idx mux_ok muxes.\nPrint OM.\n"
                 "Definition OS := Eval vm_compute in idx server_ok servers.\nPrint OS.\n"
                 "From AGH Require Import Proofs.AuthCreds.\n"
-                "Definition ON := Eval vm_compute in idx (fun rt => exception rt || blind_before_auth (chain_of reg_method rt)) routes.\nPrint ON.\n")
+                "Definition ON := Eval vm_compute in idx (fun rt => exception rt || blind_before_auth (chain_of reg_method rt)) routes.\nPrint ON.\n"
+                "From AGH Require Import Proofs.AuthMethod.\n"
+                "Definition OC := Eval vm_compute in idx route_method_ok routes.\nPrint OC.\n")
     rc, out = ctx.run(["coqc", "-Q", ctx.COQ, "AGH", "-w", "none", src], cwd=ctx.workdir, timeout=600)
     if rc != 0:
         ctx.fail("proof", "the route table could not be evaluated: " + " ".join(out.split())[:300], detail=out[-2000:])
         return
     found = []
-    lists = {"OR": routes, "OB": tab["bindings"], "OM": tab["muxes"], "OS": tab["servers"], "ON": routes}
+    lists = {"OR": routes, "OB": tab["bindings"], "OM": tab["muxes"], "OS": tab["servers"], "ON": routes, "OC": routes}
     for name, items in lists.items():
         ix = _indices(out, name)
         if ix is None:
@@ -73,6 +75,13 @@ def extra(ctx):
                                       "so the refusal of an unauthenticated request may depend on them"
                                       % (it.get("method") or "*", it["pattern"], it["pos"], chain),
                               "detail": it, "key": "route-not-blind:" + it["pattern"]})
+            elif name == "OC":
+                decl = it.get("method") or " ".join(w.get("arg") or "" for w in (it.get("chain") or []) if w["kind"] == "Ensure") or "-"
+                found.append({"what": "route %s registered at %s declares the method %r / the pattern %r: a declared method must be GET, POST, PUT or DELETE "
+                                      "(ensure decides state-changing by modifiesData on exactly POST/PUT/DELETE: any other spelling gets neither the JSON "
+                                      "gate nor the control lock) and a pattern must be a plain path (a method inside the pattern makes the mux answer 405 before the guard)"
+                                      % (it["pattern"], it["pos"], decl, it["pattern"]),
+                              "detail": it, "key": "route-method:" + it["pattern"]})
             elif name == "OB":
                 found.append({"what": "a RegisterFunc value is bound to %s at %s, which is not home.httpRegister" % (it["text"], it["pos"]),
                               "detail": it, "key": "binding:" + it["pos"]})
@@ -105,6 +114,6 @@ def extra(ctx):
         return
     ctx.extra_discharged += len(routes) - len([f for f in found if f["key"].startswith("route:")])
     # put the precise statements first, so that the replay file names them
-    fails = [{"kind": "proof", "what": ("C11_startup_code fails: " if f["key"].startswith("startup:") else "C11_routes_refusal_uniform fails: " if f["key"].startswith("route-not-blind:") else "C11_all_routes_guarded fails: ") + f["what"], "detail": f["detail"],
+    fails = [{"kind": "proof", "what": ("C11_startup_code fails: " if f["key"].startswith("startup:") else "C11_routes_refusal_uniform fails: " if f["key"].startswith("route-not-blind:") else "C11_routes_methods_canonical fails: " if f["key"].startswith("route-method:") else "C11_all_routes_guarded fails: ") + f["what"], "detail": f["detail"],
               "finding_key": f["key"], "failing_input_found": False} for f in found]
     ctx.failures[:0] = fails
